@@ -94,7 +94,7 @@ def rewrite_tu(text, exports, stubs):
     return text
 
 
-def native_replay(inst, q, workdir, inputs=None):
+def native_replay(inst, q, workdir, inputs=None, run_timeout=120):
     h = inst.h
     func = h.get("func", inst.hname)
     inputs = inputs or find_inputs(q)
@@ -167,11 +167,12 @@ def native_replay(inst, q, workdir, inputs=None):
     if p.returncode != 0:
         return {"status": "error", "detail": "native build failed: " + p.stderr[-1500:]}
     try:
-        r = subprocess.run([exe], capture_output=True, text=True, timeout=120,
+        r = subprocess.run([exe], capture_output=True, text=True, timeout=run_timeout,
                            env=dict(os.environ, ASAN_OPTIONS="detect_leaks=0:detect_stack_use_after_return=1",
                                     UBSAN_OPTIONS="print_stacktrace=1"))
     except subprocess.TimeoutExpired:
-        return {"status": "reproduced", "detail": "native run did not terminate within 120 s"}
+        return {"status": "reproduced", "hang": True, "inputs_c": value_to_c(inputs)[:20000],
+                "detail": "native run did not terminate within %d s" % run_timeout}
     out = (r.stdout + "\n" + r.stderr)
     res = {"exit": r.returncode, "output": out[-3000:], "inputs_c": value_to_c(inputs)[:20000]}
     if "REPLAY-ASSUME-FAILED" in out:
